@@ -1165,17 +1165,6 @@ class Tensor:
             else:
                 parent_var = None
 
-        for v in input_vars:
-            if isinstance(v, Tensor):
-                # tensor's graph has been cleared, but its base lingers
-                if v._base is not None and v._creator is None:
-                    v._base = None
-
-                if base is None:
-                    # non-view ops clear grads
-                    v._grad = None
-                    v._view_grad = None
-
         if base is not None:
             # we need to be able to replay view-ops for doing in-place operations
             # on graphs with views
@@ -1211,6 +1200,18 @@ class Tensor:
             if _mem.MEM_GUARD:
                 _mem.release_writeability_lock_on_op(_uniques_bases_then_arrs)
             raise e
+
+        # (only once the op is certain to be recorded: a failed op leaves its inputs as they were)
+        for v in input_vars:
+            if isinstance(v, Tensor):
+                # tensor's graph has been cleared, but its base lingers
+                if v._base is not None and v._creator is None:
+                    v._base = None
+
+                if base is None:
+                    # non-view ops clear grads
+                    v._grad = None
+                    v._view_grad = None
 
         if parent_var is not None:
             parent_var._view_children.append(tensor_out)
